@@ -17,7 +17,8 @@ PROP = "C04"
 RULE = ("connection histories covering every rejection class of requests (automatic 400/411/413/414/501, 405 for TRACE, 100 Continue), "
         "every send overload (no body, container, caller buffers), chunk / last-chunk with extension and trailers, router answers, "
         "x tcp / ssl x container; oracle: the bytes handed to the adaptor, concatenated per connection, parse as a sequence of "
-        "well-formed, correctly framed HTTP/1.1 responses under an independent grammar; non-trivial = at least one completed write")
+        "well-formed, correctly framed HTTP/1.1 responses under an independent grammar; plus chunk headers from the encoder for sizes "
+        "no simulated write can carry (hex-width edges up to 2^63-1, with extensions), judged by construction; non-trivial = at least one completed write")
 
 
 def generate(tier, rng):
